@@ -595,6 +595,40 @@ impl<'s> Sim<'s> {
         if !(self.twin == TwinMode::AckInject && self.inject) {
             return;
         }
+        // a flood (a third of the scenarios, a few times each): 30..45 ack frames of 150 groups each —
+        // more groups than a frame window holds — naming unknown frames or carrying the wrong parity,
+        // handed over in one step AHEAD of whatever genuine acknowledgements that step will read
+        if self.scn.seed % 3 == 0 && self.inj_rng.chance(0.02) {
+            let hc = self.sides[0].hc.as_ref().unwrap();
+            let (fbase, fnext) = hc.verif_tx_frame_ids();
+            let (pbase, _pnext) = hc.verif_tx_packet_ids();
+            let span = fnext.wrapping_sub(fbase);
+            let n_frames = self.inj_rng.range(30, 46);
+            let mut frames: Vec<Vec<u8>> = Vec::new();
+            for _ in 0..n_frames {
+                let mut groups = Vec::new();
+                for _ in 0..150 {
+                    let rng = &mut self.inj_rng;
+                    if span > 0 && rng.chance(0.5) {
+                        let base_id = fbase.wrapping_add(rng.below(span as u64) as u32);
+                        if let Some(par) = self.dirs[0].nonce_parity(base_id, 1) {
+                            groups.push(RAckGroup { base_id, bitfield: 1, nonce: !par });
+                            continue;
+                        }
+                    }
+                    groups.push(RAckGroup { base_id: fnext.wrapping_add(rng.range(40, 100_000) as u32), bitfield: rng.u32() | 1, nonce: rng.chance(0.5) });
+                }
+                frames.push(encode(&RFrame::Acks { frame_window_base_id: fbase, packet_window_base_id: pbase, groups }));
+            }
+            self.out.c.inc("inj_ack_group_floods");
+            for b in frames {
+                self.seq += 1;
+                self.out.c.inc("inj_ack_frames");
+                // (time stamp 0: sorts ahead of the genuine frames due in this step)
+                self.sides[0].inbox.push(Reverse(InFlight { t_ns: 0, seq: self.seq, bytes: b, injected: true }));
+            }
+            return;
+        }
         if !self.inj_rng.chance(0.25) {
             return;
         }
